@@ -17,6 +17,15 @@ FAMILIES = {
         "n": {"quick": 240, "thorough": 6000},
         "shard": 60,
     },
+
+    "kv": {
+        "family": "kv",
+        "coq_modules": ["Json", "Crc", "Hlc", "Kv", "Store", "Corr"],
+        "in_type": "scase", "obs_type": "list ostep",
+        "corr": "kv_corr_ok", "chk": "kv_chk_ok", "model": "kv_model", "explain": "kv_explain",
+        "n": {"quick": 160, "thorough": 4000},
+        "shard": 10, "procs": 8,
+    },
 }
 
 NOT_YET = {}
